@@ -16,7 +16,7 @@ THEOREMS = ["C11.spec_holds", "C11.spec_holds_b64", "C11.bytes_roundtrip", "C11.
             "Files.decodeReplace_enc", "Files.text_cook_enc", "Files.noEarly_of_class"]
 LEAN_MODULES = ["TbotVerif.Props.C11"]
 QUICK_N, THOROUGH_N = 4000, 60000
-QUICK_BUDGET, THOROUGH_BUDGET = 40, 900
+QUICK_BUDGET, THOROUGH_BUDGET = 30, 900
 CASE_WALL = 8
 RULE = ("one write_text+read_text or write_bytes+read_bytes pair per case on a kept-alive machine (bash or dash); byte strings: "
         "lengths 0, 1, 56-58, 75-77, 113-115, 511-513, 1023-1025, 4096 and random, contents random / all 256 values / runs of "
@@ -84,6 +84,11 @@ def _gen_text(rng, bl, prompt):
         # out of the domain on purpose
         return rng.choice([b"a\rb\n", b"a\r\nb\r\n", b"x\r", b"ab" + bytes([rng.choice(list(bl))]) + b"\ncd\n",
                            bytes([rng.choice(list(bl))]), b"x\n" + prompt + b"\n", b"y\n" + prompt])
+    if k < 0.145:
+        # the text quotes an error message of tee about the very file it is written to (and about another one)
+        body = rng.choice([b"tee: @@PATH@@: No such file or directory\n", b"log:\ntee: @@PATH@@: Is a directory\nend\n",
+                           b"tee: @@PATH@@: \n" + b"x" * rng.choice([10, 600]) + b"\n", b"tee: /some/other/file: Permission denied\n"])
+        return body + (b"more\n" if rng.random() < 0.5 else b"")
     if k < 0.16:
         # single lines (the `printf` fast path) that mix quoting hazards
         return rng.choice([b"it's on \\\\server\\dir", b"a'b\\\\c", b"'\\\\'", b"don't \\n \\\\n", b"say \"it's\" $HOME `id`",
